@@ -174,3 +174,62 @@ class InteractionModel:
                     if np.abs(svecs[adrs] - d).max() > 1e-6:
                         return False
         return True
+
+
+def space_group_ops(case):
+    """(R_cart, perm) for every space-group operation of the supercell; perm computed by the harness itself
+    from positions (oracle code, self-tested below), not taken from phonopy's atomic_permutations."""
+    sc = case.scell
+    L = sc.cell
+    ops = case.ph.symmetry.symmetry_operations
+    pos = sc.scaled_positions
+    out = []
+    for r, t in zip(ops["rotations"], ops["translations"]):
+        newpos = pos @ r.T + t
+        perm = []
+        for x in newpos:
+            d = pos - x; d -= np.rint(d)
+            hit = np.where(np.abs(d @ L).max(axis=1) < 1e-4)[0]
+            if len(hit) != 1:
+                raise HarnessError("space_group_ops: atom image not found")
+            perm.append(int(hit[0]))
+        Rc = L.T @ r @ np.linalg.inv(L.T)
+        if np.abs(Rc @ Rc.T - np.eye(3)).max() > 1e-8:
+            raise HarnessError("cartesian rotation not orthogonal")
+        out.append((Rc, np.array(perm), r, t))
+    return out
+
+
+def sg_average(case, F, ops):
+    """Phi' = 1/|G| sum_g g.Phi with (g.Phi)[perm(i), perm(j)] = R Phi[i,j] R^T  (works on object arrays)"""
+    n = case.n_s
+    acc = symnp._zeros((n, n, 3, 3))
+    for Rc, perm, _, _ in ops:
+        for i in range(n):
+            for j in range(n):
+                acc[perm[i], perm[j]] = acc[perm[i], perm[j]] + np.dot(Rc, np.dot(F[i, j], Rc.T))
+    return acc / float(len(ops))
+
+
+
+
+def selftest_projector(case, ops):
+    rng = np.random.default_rng(3)
+    X = rng.uniform(-1, 1, (case.n_s, case.n_s, 3, 3))
+    P = np.array(sg_average(case, X.astype(object), ops), dtype=float)
+    P2 = np.array(sg_average(case, P.astype(object), ops), dtype=float)
+    if np.abs(P - P2).max() > 1e-10:
+        raise HarnessError("space-group projector is not idempotent")
+    for Rc, perm, _, _ in ops:
+        for i in range(case.n_s):
+            for j in range(case.n_s):
+                if np.abs(P[perm[i], perm[j]] - Rc @ P[i, j] @ Rc.T).max() > 1e-10:
+                    raise HarnessError("projected array is not invariant")
+    # the group must be closed: composition of perms is a perm of the list
+    perms = {tuple(p) for _, p, _, _ in ops}
+    for _, p, _, _ in ops:
+        for _, q, _, _ in ops:
+            if tuple(p[q]) not in perms:
+                raise HarnessError("operation set is not closed")
+
+
